@@ -15,7 +15,7 @@ func isVarPhi(v ssa.Value, name string, depth int) bool {
 	if !ok || depth > 4 {
 		return false
 	}
-	return ph.Comment == name
+	return phiName(ph) == name
 }
 
 // R1: nothing live is lost at a suspension.
@@ -76,7 +76,7 @@ func ruleR1(c *Ctx) {
 				}
 			}
 		}
-		c.check(entryOK, "R1", fk+":index-from-offs", idx.Pos(), "the scan index "+idx.Comment+" starts from the offs parameter (the continuation offset of the previous call)")
+		c.check(entryOK, "R1", fk+":index-from-offs", idx.Pos(), "the scan index "+phiName(idx)+" starts from the offs parameter (the continuation offset of the previous call)")
 		nret := 0
 		for _, ri := range e.returnsOf(f) {
 			if !ri.set.has(mb) || ei < 0 {
@@ -84,7 +84,7 @@ func ruleR1(c *Ctx) {
 			}
 			nret++
 			rv := ri.ret.Results[0]
-			okv := rv == ssa.Value(idx) || isVarPhi(rv, idx.Comment, 0)
+			okv := rv == ssa.Value(idx) || isVarPhi(rv, phiName(idx), 0)
 			// or: the continuation offset of the very callee whose verdict is being passed on
 			if ex, ok := rv.(*ssa.Extract); ok && ex.Index == 0 {
 				if ev, ok := ri.ret.Results[ei].(*ssa.Extract); ok && ev.Tuple == ex.Tuple {
@@ -99,7 +99,7 @@ func ruleR1(c *Ctx) {
 		// (b) every other carried local is saved in the state object, or never read across iterations
 		for _, ph := range others {
 			ncarried++
-			key := fk + ":" + ph.Comment
+			key := fk + ":" + phiName(ph)
 			// entry value = load of a state field?
 			var fld *ssa.FieldAddr
 			for i, ed := range ph.Edges {
@@ -114,7 +114,7 @@ func ruleR1(c *Ctx) {
 			}
 			if fld != nil {
 				cell := fieldCell(fld)
-				c.ok("R1", key+":restore", ph.Pos(), "carried local "+ph.Comment+" is re-loaded from "+cell+" at entry")
+				c.ok("R1", key+":restore", ph.Pos(), "carried local "+phiName(ph)+" is re-loaded from "+cell+" at entry")
 				n := 0
 				for _, ri := range e.returnsOf(f) {
 					if !ri.set.has(mb) {
@@ -124,22 +124,22 @@ func ruleR1(c *Ctx) {
 					saved := false
 					for _, ins := range ri.ret.Block().Instrs {
 						if st, ok := ins.(*ssa.Store); ok {
-							if fa, ok := st.Addr.(*ssa.FieldAddr); ok && fieldCell(fa) == cell && (st.Val == ssa.Value(ph) || isVarPhi(st.Val, ph.Comment, 0)) {
+							if fa, ok := st.Addr.(*ssa.FieldAddr); ok && fieldCell(fa) == cell && (st.Val == ssa.Value(ph) || isVarPhi(st.Val, phiName(ph), 0)) {
 								saved = true
 							}
 						}
 					}
-					c.check(saved, "R1", fmt.Sprintf("%s:save#%d", key, n), ri.ret.Pos(), "every return that may carry more-bytes first saves "+ph.Comment+" into "+cell)
+					c.check(saved, "R1", fmt.Sprintf("%s:save#%d", key, n), ri.ret.Pos(), "every return that may carry more-bytes first saves "+phiName(ph)+" into "+cell)
 				}
 				continue
 			}
 			// not saved: it must never be read across iterations on a feasible path
 			r := fsmOf(c, fk)
 			if r == nil || r.head == nil || r.capped {
-				c.fail("R1", key+":unsaved", ph.Pos(), "local "+ph.Comment+" is modified inside the loop, live across iterations and not saved in the parser state: its value is lost when the parse is suspended")
+				c.fail("R1", key+":unsaved", ph.Pos(), "local "+phiName(ph)+" is modified inside the loop, live across iterations and not saved in the parser state: its value is lost when the parse is suspended")
 				continue
 			}
-			re := regexp.MustCompile(`(^|[^A-Za-z0-9_.])` + regexp.QuoteMeta(ph.Comment) + `($|[^A-Za-z0-9_(])`)
+			re := regexp.MustCompile(`(^|[^A-Za-z0-9_.])` + regexp.QuoteMeta(phiName(ph)) + `($|[^A-Za-z0-9_(])`)
 			var reads []string
 			for _, t := range append(r.grouped(r.trans), r.grouped(r.post)...) {
 				var texts []string
@@ -148,7 +148,7 @@ func ruleR1(c *Ctx) {
 				texts = append(texts, t.Conds...)
 				texts = append(texts, t.Stores...)
 				for k, v := range t.Locals {
-					if k != ph.Comment {
+					if k != phiName(ph) {
 						texts = append(texts, v)
 					}
 				}
@@ -162,7 +162,7 @@ func ruleR1(c *Ctx) {
 			if len(reads) > 3 {
 				reads = reads[:3]
 			}
-			c.check(len(reads) == 0, "R1", key+":unsaved", ph.Pos(), fmt.Sprintf("local %s is carried across iterations without being saved in the parser state; no feasible path reads the carried value (verdict-infeasible branches pruned) %v", ph.Comment, reads))
+			c.check(len(reads) == 0, "R1", key+":unsaved", ph.Pos(), fmt.Sprintf("local %s is carried across iterations without being saved in the parser state; no feasible path reads the carried value (verdict-infeasible branches pruned) %v", phiName(ph), reads))
 		}
 	}
 	c.check(nloops >= 10, "R1", "loops", token.NoPos, fmt.Sprintf("%d resumable loops analysed, %d carried locals besides the index", nloops, ncarried))
@@ -214,7 +214,7 @@ func ruleR1b(c *Ctx) {
 					continue
 				}
 				nphis++
-				name := ph.Comment
+				name := phiName(ph)
 				if name == "" {
 					name = "tmp"
 				}
